@@ -9,7 +9,7 @@ Runtime / environment (VCs on the real bodies):
   C05.Context.get_all / get_exported   parent overlaid by vars; {k: vars[k] for k in exported_vars} as a NEW dict
   C05.Template.new_context / make_module / make_module_async   arguments threaded to runtime.new_context / TemplateModule
   C05.Template._get_default_module[_async]   cached module built with no vars; a context with extra globals gets an UNCACHED module built
-                                    from exactly those keys; never fails on its own (KNOWN FINDING: KeyError for a shared context)
+                                    from exactly those keys the context can supply; never fails on its own (found: KeyError for a shared context, fixed in /repo e4a80dd)
   C05.TemplateModule.__init__       exports exactly context.get_exported(); body stream rendered once with the given context
   C05.Environment.get_template / select_template / get_or_select_template   first name that loads; only TemplateNotFound/UndefinedError
                                     caught; TemplatesNotFound iff none loads or the list is empty; dispatch on str/Undefined/Template/iterable
